@@ -434,3 +434,110 @@ func (c *Ctx) returnsFresh(g *types.Func) bool {
 	})
 	return ok && nret > 0
 }
+
+// ---------------------------------------------------------------------------------------------
+// LOSTWRITE: `for _, v := range xs { v.f = ... }` where the elements of xs are struct VALUES writes
+// into the per-iteration copy; if the copy is not used afterwards the store is lost (the map entry
+// keeps its old value). Every range loop whose value variable is a struct value is an instance.
+func (c *Ctx) lostWrite(rule string, funcs []*FuncInfo, clause string) (n, nviol int) {
+	for _, fi := range funcs {
+		if fi.Decl.Body == nil {
+			continue
+		}
+		info := fi.Pkg.TypesInfo
+		k := 0
+		ast.Inspect(fi.Decl.Body, func(m ast.Node) bool {
+			rs, ok := m.(*ast.RangeStmt)
+			if !ok || rs.Value == nil || rs.Tok != token.DEFINE {
+				return true
+			}
+			v := identObj(info, rs.Value)
+			if v == nil {
+				return true
+			}
+			switch v.Type().Underlying().(type) {
+			case *types.Struct, *types.Array:
+			default:
+				return true
+			}
+			k++
+			n++
+			key := fmt.Sprintf("%s/range#%d %s", funcName(fi.Obj), k, v.Name())
+			// stores through v that stay inside the copy
+			var stores []ast.Node
+			ast.Inspect(rs.Body, func(q ast.Node) bool {
+				var lhs []ast.Expr
+				switch s := q.(type) {
+				case *ast.AssignStmt:
+					lhs = s.Lhs
+				case *ast.IncDecStmt:
+					lhs = []ast.Expr{s.X}
+				}
+				for _, l := range lhs {
+					if rootedInCopy(info, l, v) {
+						stores = append(stores, q)
+					}
+				}
+				return true
+			})
+			if len(stores) == 0 {
+				c.OK(rule, key, rs.Pos(), "the per-iteration copy is only read")
+				return true
+			}
+			// any use of the copy as a whole after the first store keeps the store alive
+			first := stores[0].End()
+			used := false
+			ast.Inspect(rs.Body, func(q ast.Node) bool {
+				id, ok := q.(*ast.Ident)
+				if !ok || id.Pos() < first || identObj(info, id) != v {
+					return true
+				}
+				used = true
+				return true
+			})
+			if used {
+				c.OK(rule, key, rs.Pos(), "the modified copy is used afterwards")
+			} else {
+				nviol++
+				c.Violation(rule, key, stores[0].Pos(), fmt.Sprintf("the loop stores into %s, which is a copy of the element (the elements are %s values, not pointers), and the copy is not used afterwards: the container keeps the old value", v.Name(), types.TypeString(v.Type(), func(p *types.Package) string { return p.Name() }))).Clause = clause
+			}
+			return true
+		})
+	}
+	return
+}
+
+// rootedInCopy: l is v.f, v.f.g, v[i] ... reached from the variable v through struct fields and
+// array indices only (no pointer, slice or map in between: those would write shared storage).
+func rootedInCopy(info *types.Info, l ast.Expr, v types.Object) bool {
+	l = unparen(l)
+	depth := 0
+	for {
+		switch x := l.(type) {
+		case *ast.SelectorExpr:
+			tv, ok := info.Types[x.X]
+			if !ok {
+				return false
+			}
+			if _, isStruct := tv.Type.Underlying().(*types.Struct); !isStruct {
+				return false
+			}
+			l = unparen(x.X)
+			depth++
+		case *ast.IndexExpr:
+			tv, ok := info.Types[x.X]
+			if !ok {
+				return false
+			}
+			if _, isArr := tv.Type.Underlying().(*types.Array); !isArr {
+				return false
+			}
+			l = unparen(x.X)
+			depth++
+		case *ast.Ident:
+			return depth > 0 && identObj(info, x) == v
+		default:
+			return false
+		}
+	}
+}
